@@ -420,6 +420,7 @@ func (j *judge) judgeRecords(recs []record, out []byte) {
 // query selection for a tag
 
 func tagQueries(tag string, out []record) []record {
+	start := len(out)
 	instGuess, compGuess, hasComp := "", "", false
 	if strings.HasPrefix(tag, "snap.") {
 		rest := tag[len("snap."):]
@@ -438,7 +439,7 @@ func tagQueries(tag string, out []record) []record {
 		if hasComp && refSnapName(compGuess) {
 			out = append(out, record{kind: 'T', f1: tag, f2: other, f3: compGuess})
 		}
-		return out
+		return selfQuery(tag, out, start)
 	}
 	compValid := hasComp && refSnapName(compGuess)
 	// matching query
@@ -456,7 +457,32 @@ func tagQueries(tag string, out []record) []record {
 		out = append(out, record{kind: 'T', f1: tag, f2: instGuess, f3: "cd"}) // component expected but absent/invalid
 		out = append(out, record{kind: 'U', f1: tag, f2: other})               // wrong instance
 	}
-	return out
+	return selfQuery(tag, out, start)
+}
+
+// selfQuery adds the query "snap-confine, do you accept this tag for exactly the instance and component
+// the daemon reads off it?" whenever the daemon parses the tag at all. The arguments come from the
+// daemon's own parse result, not from the harness-side reference predicates, so a daemon that reads an
+// instance/component out of a tag that snap-confine would never accept it for (in any position: key
+// shaped component, upper case, too short, empty, ...) is confronted with snap-confine's verdict.
+func selfQuery(tag string, out []record, start int) []record {
+	p, err := naming.ParseSecurityTag(tag)
+	if err != nil {
+		return out
+	}
+	q := record{kind: 'U', f1: tag, f2: p.InstanceName()}
+	if h, ok := p.(naming.HookSecurityTag); ok && h.ComponentName() != "" {
+		q = record{kind: 'T', f1: tag, f2: p.InstanceName(), f3: h.ComponentName()}
+	}
+	if strings.IndexByte(q.f2, 0) >= 0 || strings.IndexByte(q.f3, 0) >= 0 {
+		return out
+	}
+	for _, o := range out[start:] {
+		if o == q {
+			return out
+		}
+	}
+	return append(out, q)
 }
 
 // ------------------------------------------------------------------------------------------------
@@ -564,6 +590,79 @@ func structuredTags() []string {
 		}
 	}
 	return res
+}
+
+// shapeNames is the position-independent shape alphabet: one short representative of every way a name
+// can be (in)valid for SOME position of a tag. Every position of a tag (snap, instance key, component,
+// app/hook name) ranges over the whole list, so each position also sees the names that are valid only for
+// a different position (instance-shaped or component-shaped strings as component, key, app or hook; a key
+// shaped string as snap; ...).
+func shapeNames(thorough bool) []string {
+	s := []string{
+		"",             // empty
+		"a",            // one letter: valid key/app/hook, too short for a snap or component
+		"0",            // one digit: valid key/app
+		"ab",           // valid in every position
+		"0a",           // digit first: valid snap/component/key/app, not a hook
+		"00",           // digits only: valid key/app, not a snap
+		"a-b",          // inner dash: valid snap/component/app/hook, not a key
+		"a--b",         // double dash
+		"-ab",          // leading dash
+		"ab-",          // trailing dash
+		"Ab",           // upper case: valid app only
+		"ab_1",         // instance-name shaped (snap_key)
+		"ab_",          // empty key
+		"_1",           // key without snap
+		"ab+cd",        // component-ref shaped (snap+component)
+		"ab.cd",        // contains the tag separator
+		"hook",         // the literal
+		"a123456789",   // 10 characters: the longest valid key, also a valid snap
+		"a1234567890",  // 11 characters: one too long for a key, valid snap
+		rep("a", 40),   // longest valid snap/component name
+		rep("a", 41),   // one too long
+		"ab\n",         // trailing newline ('$' handling of the regex engines)
+	}
+	if thorough {
+		s = append(s, "A", "z9", "a-0", "0-a", "a_b", "ab_A", "ab_1_2", "ab+", "+cd", "ab+cd_1", "ab_1+cd", "hook.ab", "ab ", "ab\xe9", rep("a", 39))
+	}
+	return s
+}
+
+// positionalTags: every tag of the forms
+//
+//	snap.X.N   snap.X_K.N   snap.X+C.N   snap.X_K+C.N          (app form; "+C" is never valid there)
+//	snap.X.hook.N  snap.X_K.hook.N  snap.X+C.hook.N  snap.X_K+C.hook.N  snap.X+C_K.hook.N
+//
+// with X, K, C and N each ranging independently over the whole shape alphabet. (A doubled '+', an
+// empty component, a key after the component etc. arise from the shapes themselves.) Returns the
+// distinct tags, sorted, and the number generated before de-duplication.
+func positionalTags(S []string) ([]string, int64) {
+	seen := map[string]struct{}{}
+	var gen int64
+	add := func(s string) { gen++; seen[s] = struct{}{} }
+	for _, x := range S {
+		for _, n := range S {
+			add("snap." + x + "." + n)
+			add("snap." + x + ".hook." + n)
+			for _, k := range S {
+				add("snap." + x + "_" + k + "." + n)
+				add("snap." + x + "_" + k + ".hook." + n)
+				add("snap." + x + "+" + k + "." + n)
+				add("snap." + x + "+" + k + ".hook." + n)
+				for _, c := range S {
+					add("snap." + x + "_" + k + "+" + c + "." + n)
+					add("snap." + x + "_" + k + "+" + c + ".hook." + n)
+					add("snap." + x + "+" + c + "_" + k + ".hook." + n)
+				}
+			}
+		}
+	}
+	res := make([]string, 0, len(seen))
+	for s := range seen {
+		res = append(res, s)
+	}
+	sort.Strings(res)
+	return res, gen
 }
 
 // ------------------------------------------------------------------------------------------------
